@@ -73,6 +73,14 @@ fn heavy_covenants() -> Vec<(&'static str, Bytes)> {
 }
 
 /// Covenants locking coins whose *execution* is hostile (the spend runs them).
+/// Leaves in heap slot 2 a byte string (or vector) of 2^64 - 1 elements, built from doubled pieces in 63 iterations.
+fn full_length(bytes: bool) -> Vec<OpCode> {
+    use OpCode::*;
+    let (mut ops, append) = if bytes { (vec![PushB(vec![7])], BAppend) } else { (vec![PushI(7u8.into()), VEmpty, VPush], VAppend) };
+    ops.extend([Dup, StoreImm(1), StoreImm(2), Loop(63, 8), LoadImm(1), Dup, append.clone(), Dup, StoreImm(1), LoadImm(2), append, StoreImm(2)]);
+    ops
+}
+
 fn hostile_lock_covenants() -> Vec<(&'static str, Vec<OpCode>)> {
     use OpCode::*;
     let pi = |n: u64| PushI(n.into());
@@ -94,6 +102,12 @@ fn hostile_lock_covenants() -> Vec<(&'static str, Vec<OpCode>)> {
             p.push(VLength);
             p
         }),
+        // a string / vector of 2^64 - 1 elements out of shared pieces (1 + 2 + ... + 2^63: every append passes its own length check),
+        // then one more element by BPush / BCons / VPush / VCons (finding AI: those four did not check the length counter)
+        ("full-length-bpush", { let mut p = full_length(true); p.extend([pi(1), LoadImm(2), BPush, BLength]); p }),
+        ("full-length-bcons", { let mut p = full_length(true); p.extend([LoadImm(2), pi(1), BCons, BLength]); p }),
+        ("full-length-vpush", { let mut p = full_length(false); p.extend([pi(1), LoadImm(2), VPush, VLength]); p }),
+        ("full-length-vcons", { let mut p = full_length(false); p.extend([LoadImm(2), pi(1), VCons, VLength]); p }),
         ("exp-255", vec![PushI(ethnum::U256::MAX), PushI(ethnum::U256::MAX), Exp(255)]),
         ("div-by-zero", vec![pi(0), pi(1), Div]),
         ("hash-65535-of-64k", vec![PushB(vec![1; 255]), Loop(8, 2), Dup, BAppend, Hash(65535), BLength]),
@@ -560,6 +574,30 @@ pub fn child_main(args: &[String]) {
         println!("{}", out);
         return;
     }
+    if let Some(m) = which.strip_prefix("underpaid-heavy-covenant-m") {
+        // a coin locked by three nested loops of 65535 (about 2.8 x 10^14 steps, weight to match) spent by a transaction that pays
+        // a fee of 1000 at a non-zero fee multiplier: the refusal for the fee must come without the covenant having been run
+        // (finding AG: covenants were run first)
+        let m: u128 = m.parse().unwrap();
+        let out = child::on_small_stack(move || {
+            let r = guard(move || {
+                let cov = Covenant::from_ops(&[OpCode::Loop(65535, 3), OpCode::Loop(65535, 2), OpCode::Loop(65535, 1), OpCode::Noop, OpCode::PushI(1u8.into())]);
+                let w = world(NetID::Custom02, out(cov.hash(), 1_000_000, Denom::Mel), 0, m, Default::default());
+                let s = w.genesis.clone().seal(None);
+                let mut u = s.next_unsealed();
+                let t = mktx(TxKind::Normal, vec![CoinID::zero_zero()], vec![out_t(1_000_000 - 1000, Denom::Mel)], 1000, vec![cov.to_bytes()], vec![]);
+                let start = Instant::now();
+                let r = u.apply_tx(&t);
+                json!({"result": if r.is_ok() { "accepted" } else { "rejected" }, "secs": start.elapsed().as_secs_f64(), "weight": cov.weight().to_string()})
+            });
+            match r {
+                Ok(v) => v,
+                Err(p) => json!({"result": "panic", "panic_class": p.class(), "panic_msg": p.msg}),
+            }
+        });
+        println!("{}", out);
+        return;
+    }
     let out = child::on_small_stack(move || {
         let r = guard(move || {
             let ops: Vec<OpCode> = if let Some(k) = which.strip_prefix("vnest-") {
@@ -644,6 +682,9 @@ fn child_cases(run: &Run, thorough: bool) {
             cases.push(format!("bdouble-{}-{}", k, c));
         }
     }
+    for m in [100u128, 65536] {
+        cases.push(format!("underpaid-heavy-covenant-m{}", m));
+    }
     run.states_add(cases.len() as u64);
     let pool = rayon::ThreadPoolBuilder::new().num_threads(6).build().unwrap();
     pool.install(|| {
@@ -722,6 +763,69 @@ fn inputs_adding_up_beyond_128_bits(run: &Run) {
                 }
             }
         }
+    }
+}
+
+/// Fees adding up beyond 128 bits: faucets (which mint their own fee) paying 2^120 each, as tips (fee multiplier 0) and as base
+/// fees (a multiplier that makes the minimum about 2^120); every application, every seal (with and without a proposer action)
+/// and the blocks after must return.  Finding AF: the tallies saturated silently and the sums at sealing then overflowed.
+fn fees_adding_up_beyond_128_bits(run: &Run) {
+    // (the multiplier of the second world makes the minimum fee of these faucets just under 2^120)
+    let probe_weight = crate::refstf::ref_tx_weight(&tx_t(TxKind::Faucet, vec![], vec![out_t(1, Denom::Mel)], 1 << 120, vec![0x20; 200]));
+    for (name, mult, data_len) in [("tips", 0u128, 0usize), ("base-fees", ((1u128 << 120) / probe_weight) << 16, 200)] {
+        let w = world_mel(NetID::Custom02, 1_000_000, mult);
+        let mut u = match guard(|| w.genesis.clone().seal(None).next_unsealed()) {
+            Ok(u) => u,
+            Err(_) => continue,
+        };
+        let mut accepted = 0u32;
+        let mut stuck = false;
+        for block in 0..2u32 {
+            for i in 0..300u32 {
+                let f = tx_t(TxKind::Faucet, vec![], vec![out_t(1, Denom::Mel)], 1 << 120, {
+                    let mut d = format!("fee-{}-{}-{}", name, block, i).into_bytes();
+                    d.resize(d.len().max(data_len), 0x20);
+                    d
+                });
+                let replay = json!({"setup": format!("genesis[Custom02] fee_multiplier={}", mult), "hostile": format!("faucet number {} paying a fee of 2^120 ({})", block * 300 + i + 1, name)});
+                run.transition();
+                match watched(&format!("apply_tx:fee-{}", name), &replay, || guard(|| u.apply_tx(&f))) {
+                    Err(p) => {
+                        run.violation("C09", format!("apply_tx_batch/fees-adding-up-beyond-128-bits/{}/{}", name, p.class().rsplitn(2, '/').last().unwrap_or("panic")), format!("faucet {} with fee 2^120: {}", block * 300 + i + 1, p.msg), replay);
+                        stuck = true;
+                        break;
+                    }
+                    Ok(Ok(())) => accepted += 1,
+                    Ok(Err(_)) => run.outcome("huge-fees:rejected"),
+                }
+                run.validated();
+            }
+            if stuck {
+                break;
+            }
+            // seal under both kinds of action, go on from the one without
+            let replay = json!({"setup": format!("genesis[Custom02] fee_multiplier={}", mult), "hostile": format!("{} faucets paying 2^120 each ({}), block {}", accepted, name, block + 1)});
+            for act in [Some(ProposerAction { fee_multiplier_delta: 0, reward_dest: addr_true() }), None] {
+                run.transition();
+                match watched(&format!("seal:fee-{}", name), &replay, || guard(|| u.clone().seal(act))) {
+                    Err(p) => {
+                        run.violation("C09", format!("seal/fees-adding-up-beyond-128-bits/{}/{}", name, p.class().rsplitn(2, '/').last().unwrap_or("panic")), format!("seal({}) after {} faucets paying 2^120 each: {}", if act.is_some() { "Some" } else { "None" }, accepted, p.msg), replay.clone());
+                        stuck = true;
+                    }
+                    Ok(s) => {
+                        run.outcome("huge-fees:sealed");
+                        if act.is_none() {
+                            u = s.next_unsealed();
+                        }
+                    }
+                }
+                run.validated();
+            }
+            if stuck {
+                break;
+            }
+        }
+        run.outcome(&format!("huge-fees:{}:accepted={}", name, accepted));
     }
 }
 
@@ -1056,6 +1160,7 @@ pub fn run(run: &'static Run) {
     }
     run.set("hostile_transactions", json!(total));
     inputs_adding_up_beyond_128_bits(run);
+    fees_adding_up_beyond_128_bits(run);
     pool_request_combinations(run, &deltas);
     user_pool_request_combinations(run, &deltas);
     // every transition of the state-graph scenarios is a totality check as well (the engine tags panics with C09): run the
